@@ -39,6 +39,17 @@ VACUITY = {
 HALF = ["EndToEnd_half_return.cfg", "EndToEnd_half_pop.cfg"]
 
 
+_COV = re.compile(r"<(\w+) line \d+, col \d+ to line \d+, col \d+ of module EndToEnd(?: \([\d ]+\))?>: (\d+):(\d+)")
+
+
+def _coverage(out):
+    """per-action (distinct, taken) of the last coverage dump (vlib's parser misses actions whose body is a LET)."""
+    cov = {}
+    for m in _COV.finditer(out):
+        cov[m.group(1)] = (int(m.group(2)), int(m.group(3)))
+    return cov
+
+
 # ------------------------------------------------------------------------------------------------
 # 1. the model
 def _model(pid, tier, seed):
@@ -48,7 +59,7 @@ def _model(pid, tier, seed):
         f_main = ex.submit(vlib.tlc, "MC_EndToEnd", main_cfg, pid, workers=8 if tier == "quick" else 6,
                            timeout=1500, coverage=True)
         f_live = ex.submit(vlib.tlc, "MC_EndToEnd", "EndToEnd_live.cfg" if tier == "quick" else "EndToEnd_live3.cfg",
-                           pid, workers=2, timeout=1700)
+                           pid, workers=2, timeout=1700, coverage=True)
         f_bugs = {c: ex.submit(vlib.tlc, "MC_EndToEnd", c, pid, workers=1, timeout=600) for c in VACUITY}
         f_half = {c: ex.submit(vlib.tlc, "MC_EndToEnd", c, pid, workers=1, timeout=600) for c in HALF}
         f_sim = None
@@ -81,14 +92,23 @@ def _model(pid, tier, seed):
             if s.violated:
                 vlib.log(s.out[-4000:])
                 raise vlib.ToolError("EndToEnd.tla (4 requests, simulation): %s violated (spec error)" % s.violated)
-            sim = {"cfg": "EndToEnd_sim4.cfg", "behaviours": 60000, "depth": 60, "states_generated": s.generated}
-    cov = m.coverage()
+            mg = re.findall(r"The number of states generated: (\d+)", s.out)
+            mt = re.findall(r"(\d+) states checked, (\d+) traces generated \(trace length: mean=(\d+)", s.out)
+            sim = {"cfg": "EndToEnd_sim4.cfg", "max_depth": 60, "states_checked": int(mg[-1]) if mg else 0,
+                   "behaviours": int(mt[-1][1]) if mt else 0, "mean_length": int(mt[-1][2]) if mt else 0}
+            if not sim["states_checked"]:
+                raise vlib.ToolError("EndToEnd.tla (4 requests, simulation) produced no states")
+    cov = _coverage(m.out)
+    lcov = _coverage(lv.out)
     res["cfg"] = main_cfg
     res["states"] = m.distinct
     res["transitions"] = m.generated
     res["depth"] = m.depth
     res["tlc_coverage"] = {a: {"distinct": d, "taken": t} for a, (d, t) in sorted(cov.items())}
-    res["actions_never_taken"] = sorted(a for a, (d, t) in cov.items() if t == 0 and a not in ("Init",))
+    res["tlc_coverage_liveness_cfg"] = {a: {"distinct": d, "taken": t} for a, (d, t) in sorted(lcov.items())}
+    res["actions_never_taken_main_cfg"] = sorted(a for a, (d, t) in cov.items() if t == 0)
+    # (the quick main cfg has AllowBreak = FALSE: PeerBreak / Fail are exercised by the liveness cfg)
+    res["actions_never_taken"] = sorted(a for a, (d, t) in cov.items() if t == 0 and lcov.get(a, (0, 0))[1] == 0)
     res["liveness"] = {"cfg": "EndToEnd_live.cfg" if tier == "quick" else "EndToEnd_live3.cfg",
                        "states": lv.distinct, "property": "Completes under FairSpec"}
     res["vacuity_guard"] = bugs
@@ -115,6 +135,20 @@ def _harness(tier, seed, first, runs, max_req, out, repeat=1, timeout=3000):
         txt = p.stdout
     else:
         txt = vlib.run_harness("e2e", args, timeout=timeout)
+    return json.loads(txt.strip().splitlines()[-1])
+
+
+def _scenario(name, out):
+    args = ["scenario", name, "--out", out, "--sockdir", os.path.join(vlib.outdir(PID), "s")]
+    alt = os.environ.get("VERIF_E2E_BIN")
+    if alt:
+        import subprocess
+        p = subprocess.run([alt] + args, stdout=subprocess.PIPE, stderr=subprocess.PIPE, text=True, timeout=120)
+        if p.returncode != 0:
+            raise vlib.ToolError("harness %s scenario exited %d" % (alt, p.returncode))
+        txt = p.stdout
+    else:
+        txt = vlib.run_harness("e2e", args, timeout=120)
     return json.loads(txt.strip().splitlines()[-1])
 
 
@@ -175,6 +209,28 @@ def _classify(events, idx, inv):
             key = "NoSpuriousFailure:h2-preface-split@auto-server(duplex-buf<24)"
         elif ev["e"] == "Stuck" and not dials and not sends:
             key = "NoSpuriousFailure:stuck-pure-waiter"
+        elif ev["e"] == "Error" and not dials and not sends and "pool closed" in ev.get("kind", ""):
+            # a request that was told to wait for another request's HTTP/2 connection attempt
+            owners = {}
+            for e in run_events:
+                r0 = e.get("r")
+                if r0 is None or r0 == r or e["e"] == "Handle":
+                    continue
+                o0 = owners.setdefault(r0, {"origin": None, "h2dial": False, "term": None})
+                if e["e"] == "Issue":
+                    o0["origin"] = e["origin"]
+                elif e["e"] == "Dial" and e["ver"] == "h2":
+                    o0["h2dial"] = True
+                elif e["e"] in ("Cancel", "Error", "Stuck", "Response"):
+                    o0["term"] = e["e"]
+            mine_o = issue["origin"] if issue else None
+            cands = [o0 for o0 in owners.values() if o0["origin"] == mine_o and o0["h2dial"]]
+            if cfg.get("cap") is False and any(o0["term"] == "Cancel" for o0 in cands):
+                key = "NoSpuriousFailure:pure-waiter-failed(pool-closed)"
+            elif any(o0["term"] == "Error" for o0 in cands):
+                key = "NoSpuriousFailure:pure-waiter-failed(owner-dial-failed)/%s" % where
+            else:
+                key = "NoSpuriousFailure:pure-waiter-failed(unexplained)/%s" % where
         elif ev["e"] == "Stuck":
             key = "NoSpuriousFailure:stuck/%s/%s" % ("sent" if sends else "dialling", where)
         else:
@@ -190,7 +246,8 @@ def _classify(events, idx, inv):
     desc = "%s is false on record %d of run %d (seed %s): %s | request events: %s" % (
         inv, idx - start, reset["run"], reset["seed"], json.dumps(ev, sort_keys=True)[:400],
         json.dumps(mine + handles, sort_keys=True)[:1200])
-    replay = {"seed": reset["seed"], "tier": reset["tier"], "max_req": reset["maxReq"], "run": reset["run"],
+    replay = {"scenario": reset.get("scenario"),
+              "seed": reset["seed"], "tier": reset["tier"], "max_req": reset["maxReq"], "run": reset["run"],
               "inv": inv, "key": key, "record": ev, "request_events": mine + handles, "cfg": cfg, "repeat": 25}
     return key, desc, replay
 
@@ -237,6 +294,10 @@ def run(pid, tier, seed, t0):
             suspects += s["suspects"][:5]
             server_errors += s["server_errors"][:5]
             pending.append((path, s, vex.submit(_validate, pid, path, s, verdict, keys_seen)))
+        # the deterministic scenario (no clocks): owner of an HTTP/2 dial cancelled, cap=false, one waiter
+        spath = os.path.join(d, "scenario-waiter-owner-cancelled.ndjson")
+        sc = _scenario("waiter-owner-cancelled", spath)
+        pending.append((spath, sc, vex.submit(_validate, pid, spath, sc, verdict, keys_seen)))
         for path, s, f in pending:
             totals["bad"] += f.result()
             totals["runs_validated"] += s["runs"] * s["repeat"]
@@ -303,10 +364,14 @@ def replay(pid, path):
     rp = obj["replay"]
     d = vlib.outdir(pid)
     out = os.path.join(d, "replay-trace.ndjson")
-    s = _harness(rp["tier"], rp["seed"], rp["run"], 1, rp["max_req"], out, repeat=rp.get("repeat", 25))
+    if rp.get("scenario"):
+        s = _scenario(rp["scenario"], out)
+    else:
+        s = _harness(rp["tier"], rp["seed"], rp["run"], 1, rp["max_req"], out, repeat=rp.get("repeat", 25))
     bad = _monitor(pid, out, s["events"])
     if not bad:
-        vlib.log("[C01] replay: %d repetitions of run %d, property held" % (s["repeat"], rp["run"]))
+        vlib.log("[C01] replay: %s, property held" % (("scenario " + rp["scenario"]) if rp.get("scenario") else
+                                                      "%d repetitions of run %d" % (s["repeat"], rp["run"])))
         return 0
     events = vlib.read_ndjson(out)
     verdict = vlib.Verdict(pid)
